@@ -48,7 +48,8 @@ impl Op {
 // k0..k2 share a slot in the 1 MB and 2 MB tables of the implementation under test; k3 has a slot of its own that
 // differs between table sizes (so that anything remembered about it across a resize is wrong). The model does not
 // rely on this: slot classes are measured through the public API.
-pub const KEYS: [u64; 4] = [5, 5 + 131_072, 5 + 2 * 131_072, 6 + 65_536];
+// (k0 is the key 0: every 64-bit value is a key)
+pub const KEYS: [u64; 4] = [0, 131_072, 2 * 131_072, 6 + 65_536];
 
 fn bound_of(b: u8) -> NodeBound {
     match b {
